@@ -149,6 +149,7 @@ def e1(unit_dir):
     fn_ranges = [e for e in entries if e["kind"] == "fn-range"]
     payloads = [e for e in entries if e["kind"] in ("spec", "invariant", "closure-spec", "ghost", "inner", "spec-assumed")]
     demoted = {(e["file"], e["item"], e.get("fn", "")) for e in entries if e["kind"] == "demoted"}
+    assumed = {(e["file"], e["item"], e.get("fn", "")) for e in entries if e["kind"] == "fnattr" and "external_body" in e.get("text", "")}
 
     cache_dir = os.path.join(BUILD, "cache")
     v = None
@@ -245,7 +246,7 @@ def e1(unit_dir):
             n += 1  # the inherited trait-level postcondition
         res["fns"].append({"file": e["file"], "item": e["item"], "fn": e.get("fn", ""), "line": e["line_start"],
                            "tags": [t for t in (e.get("tags", "") or "").split(",") if t], "clauses": n,
-                           "status": "demoted" if k in demoted else ("failed" if k in failing else "verified"),
+                           "status": "demoted" if k in demoted else ("assumed" if k in assumed else ("failed" if k in failing else "verified")),
                            "has_stanza": e.get("has_stanza") == "true"})
     return res
 
@@ -397,6 +398,8 @@ def check(pid, tier):
 
 
 def build_evidence(pid, spec, tier, seed, r1, r2, r3, e1_fns, n_viol, undecided, known_hits, wall, unit_dir):
+    assumed_fns = [f for f in e1_fns if f["status"] == "assumed"]
+    e1_fns = [f for f in e1_fns if f["status"] != "assumed"]
     obligations = sum(f["clauses"] for f in e1_fns)
     discharged = sum(f["clauses"] for f in e1_fns if f["status"] == "verified")
     kani_h = []
@@ -413,6 +416,8 @@ def build_evidence(pid, spec, tier, seed, r1, r2, r3, e1_fns, n_viol, undecided,
         "trusted_base": P.TRUSTED_BASE,
         "functions_under_contract": [{"fn": "%s :: %s :: %s" % (f["file"], f["item"], f["fn"]), "repo_location": "entrait_macros/src/%s" % f["file"],
                                       "clauses": f["clauses"], "status": f["status"], "backend": "verus"} for f in e1_fns],
+        "assumed_contracts": [{"fn": "%s :: %s :: %s" % (f["file"], f["item"], f["fn"]), "clauses": f["clauses"],
+                               "note": "external_body: the contract is assumed here (callers are verified against it); its content is covered by the bounded replay only"} for f in assumed_fns],
         "kani_harnesses": len(kani_h),
         "kani": kani_h,
         "undecided": undecided,
